@@ -330,7 +330,8 @@ func (t *translator) expr(e ast.Expr) term {
 			return term{r, kB}
 		case token.ADD, token.SUB:
 			a, b := t.expr(x.X), t.expr(x.Y)
-			if a.k != kD || b.k != kD {
+			// a duration and a typed constant of the package (maxDuration) make a duration
+			if !((a.k == kD || a.k == kZ) && (b.k == kD || b.k == kZ) && (a.k == kD || b.k == kD)) {
 				die("%s: arithmetic on anything but durations in %s", t.spec.name, exprString(e))
 			}
 			// time.Duration is int64: + and - wrap around
@@ -505,8 +506,19 @@ func (t *translator) ret(e ast.Expr) string {
 		die("%s: returned expression is not a known leaf: %s", t.spec.name, exprString(e))
 	}
 	r := t.expr(e)
-	if r.k != kB {
-		die("%s: returns a non-boolean: %s", t.spec.name, exprString(e))
+	switch t.spec.ret {
+	case "Z":
+		if r.k != kD && r.k != kZ {
+			die("%s: returns a non-integer: %s", t.spec.name, exprString(e))
+		}
+	case "bytes":
+		if r.k != kS {
+			die("%s: returns a non-string: %s", t.spec.name, exprString(e))
+		}
+	default:
+		if r.k != kB {
+			die("%s: returns a non-boolean: %s", t.spec.name, exprString(e))
+		}
 	}
 	return r.s
 }
@@ -742,6 +754,18 @@ func main() {
 			}
 			fmt.Fprintf(&out, "(* internal/header.go: var %s *)\nDefinition src_%s : bytes * bytes := (%s, %s).\n\n", n, n, coqString(*v.s), coqString(*l.s))
 		}
+	})
+	group("SrcHelpers.v", func() {
+		emitFn(&fnSpec{file: "freshness.go", name: "saturatingAdd", coq: "src_saturating_add", params: "(a b : Z)", ret: "Z",
+			syms: symtab{"a": {"a", kD}, "b": {"b", kD}}}, intByName, intCE)
+		emitFn(&fnSpec{file: "helpers.go", name: "defaultPort", coq: "src_default_port", params: "(scheme : bytes)", ret: "bytes",
+			syms: symtab{"scheme": {"scheme", kS}}}, intByName, intCE)
+	})
+	group("SrcOrigin.v", func() {
+		translateEffects(effSpec{file: "helpers.go", fn: "sameOrigin", coq: "src_same_origin", params: "(a b : url)", ret: "bool", pure: true,
+			env: func() *eenv {
+				return &eenv{vars: map[string]term{"a": {"a", kURL}, "b": {"b", kURL}}, facts: map[string]bool{}}
+			}}, intByName, intCE, &out)
 	})
 	group("SrcInval.v", func() {
 		translateInvalidator(intByName, intFiles, intCE, &out)
